@@ -14,7 +14,7 @@ fn main() {
     let profile = arimaa_verif::runner::profile_from(args.get(2).map(|s| s.as_str()).unwrap_or("normal"));
     let small: u32 = args.get(3).and_then(|s| s.parse().ok()).unwrap_or(3);
     let mut runner = TestRunner::new(proptest_config(1, 42));
-    let params = GameParams { max_ops: 200, w_setup: 0, w_pos: 6, w_small: small, w_frozen: 0, hanging: false, w_motif: 0 };
+    let params = GameParams { max_ops: 200, w_setup: 0, w_pos: 6, w_small: small, w_frozen: 0, hanging: false, w_motif: 0, w_open: 0 };
     let mut by = std::collections::BTreeMap::new();
     for i in 0..n {
         let case = game(params).new_tree(&mut runner).unwrap().current();
